@@ -218,6 +218,20 @@ def quadrature_value(A, P, U):
     return ldp + (n / m) * (W * (logA @ W)).sum((-2, -1))
 
 
+def is_guard(obs):
+    """the explicit refusal of a right-hand side whose batch shape differs from the operator's (the documented type of
+    inv_quad_rhs is `*batch N M` with the operator's batch; several classes broadcast, the others raise this guard)"""
+    return obs.get("raise") == "RuntimeError" and "cannot be multiplied with right-hand-side" in obs.get("msg", "")
+
+
+def full_rhs(case, batch):
+    """the right-hand side expanded to the operator's batch shape (rhs kind "bmat": a batch shape with 1s that broadcasts)"""
+    R = case["R"]
+    if R is None or R.dim() == 1:
+        return R
+    return R.expand(*batch, *R.shape[-2:])
+
+
 def expected_shapes(case, batch, t):
     if case["rhs"] == "none":
         iq = None
@@ -243,6 +257,8 @@ def predicate(case, obs):
         if (case["rhs"] == "none" and not case["logdet"] and obs["raise"] == "RuntimeError"
                 and "must be specif" in obs["msg"]):
             return None          # documented: nothing was asked for
+        if case["rhs"] == "bmat" and is_guard(obs):
+            return None          # explicit refusal of a rhs batch shape different from the operator's
         return ("raise:" + obs["raise"], "raised %s: %s" % (obs["raise"], obs["msg"]))
     t = 0 if R is None else (1 if R.dim() == 1 else R.shape[-1])
     exp_iq_shapes, exp_ld_shape = expected_shapes(case, batch, t)
@@ -254,14 +270,14 @@ def predicate(case, obs):
             return ("iq-missing", "inv_quad term missing although inv_quad_rhs was given")
         if list(iq.shape) not in exp_iq_shapes:
             return ("iq-shape", "inv_quad term has shape %s, documented %s" % (list(iq.shape), exp_iq_shapes))
-        Rm = R.unsqueeze(-1) if R.dim() == 1 else R
+        Rm = R.unsqueeze(-1) if R.dim() == 1 else full_rhs(case, batch)
         sol = torch.linalg.solve(A, Rm)
         exact = (Rm * sol).sum(-2)
         if case["reduce"]:
             exact = exact.sum(-1)
         exact = exact.reshape(iq.shape)
         cg_solve = (not chol_route(st, n)) and st["solves"] and (
-            leaf in ("Dense", "OB") or (leaf == "KPAD" and spec_leaf(spec)["dk"]["k"] == "diag"))
+            leaf in ops.GENERIC or (leaf == "KPAD" and spec_leaf(spec)["dk"]["k"] == "diag"))
         lanczos_jitter = leaf in ("KPAD", "SumKron") and not (leaf == "KPAD" and spec_leaf(spec)["dk"]["k"] in ("const", "diag"))
         kron_cg = leaf == "Kron" and (not chol_route(st, n)) and st["solves"]
         if kron_cg:
@@ -386,11 +402,127 @@ def failure_key(case, fail):
     return {"class": ">".join(w) if w else "Leaf", "has_block": "Block" in w, "has_repeat": "Repeat" in w,
             "kind": leaf["k"], "leaf": ops.describe(leaf).split(":")[0],
             "route": "chol" if chol_route(case["st"], n) else "cg",
-            "rhs": case["rhs"], "logdet": bool(case["logdet"]), "api": case["api"],
+            "rhs": "mat" if case["rhs"] == "bmat" else case["rhs"], "rhs_broadcast": case["rhs"] == "bmat",
+            "logdet": bool(case["logdet"]), "api": case["api"],
             "batched": int(math.prod(ops.spec_batch(spec))) > 1, "fail": fail}
 
 
 # ------------------------------------------------------------------------------------------ the grid
+
+def base_of(kind, r, b, m):
+    if kind == "Dense":
+        return {"k": "Dense", "A": ops.spd(r, b, m, shift=0.5)}
+    if kind == "Diag":
+        return {"k": "Diag", "d": ops.pos(r, *b, m)}
+    if kind == "CDiag":
+        return {"k": "CDiag", "c": ops.pos(r, *b, 1), "n": m}
+    if kind == "Chol":
+        return {"k": "Chol", "T": ops.tri(r, b, m, False), "upper": False}
+    if kind == "Kron":
+        return {"k": "Kron", "fs": [ops.spd(r, b, 2), ops.spd(r, b, 2)]}
+    if kind == "Ident":
+        return {"k": "Ident", "n": m, "batch": b}
+    if kind == "LRRAD":
+        return {"k": "LRRAD", "U": ops.rnd(r, *b, m, 1), "d": ops.pos(r, *b, m), "cdiag": False}
+    raise ValueError(kind)
+
+
+MB_PREFIX = "MB "
+
+
+def variants_mb(quick):
+    """every class whose inv_quad / logdet code reshapes, reduces over or broadcasts batch dimensions, with >= 2 batch
+    dimensions of DIFFERENT sizes and members that all differ: leaves, expanded / broadcast batches, Block* (also with a
+    block dimension that is not the last batch dimension), SumBatch, Cat along a batch dimension, BatchRepeat with repeat
+    patterns that mix repeated and non-repeated dimensions, and nestings"""
+    V = []
+
+    def add(name, f):
+        V.append((MB_PREFIX + name, f))
+    for b in ([2, 3], [3, 1, 2]):
+        main = b == [2, 3]
+        add("Dense n=3 b=%s" % b, lambda r, b=b: {"k": "Dense", "A": ops.spd(r, b, 3, shift=0.5)})
+        add("Diag n=3 b=%s" % b, lambda r, b=b: {"k": "Diag", "d": ops.pos(r, *b, 3)})
+        add("Chol n=3 b=%s" % b, lambda r, b=b: {"k": "Chol", "T": ops.tri(r, b, 3, False), "upper": False})
+        add("Kron [2, 2] b=%s" % b, lambda r, b=b: {"k": "Kron", "fs": [ops.spd(r, b, 2), ops.spd(r, b, 2, shift=0.25)]})
+        add("LRRAD n=4 r=2 b=%s" % b, lambda r, b=b: {"k": "LRRAD", "U": ops.rnd(r, *b, 4, 2), "d": ops.pos(r, *b, 4), "cdiag": False})
+        if not main:
+            continue
+        add("Dense-low n=4 b=%s" % b, lambda r, b=b: {"k": "Dense", "A": ops.spd(r, b, 4, shift=0.25)})
+        add("CDiag n=3 b=%s" % b, lambda r, b=b: {"k": "CDiag", "c": ops.pos(r, *b, 1), "n": 3})
+        add("Ident n=3 b=%s" % b, lambda r, b=b: {"k": "Ident", "n": 3, "batch": b})
+        add("Chol n=3 b=%s up" % b, lambda r, b=b: {"k": "Chol", "T": ops.tri(r, b, 3, True), "upper": True})
+        add("Tri n=3 b=%s" % b, lambda r, b=b: {"k": "Tri", "T": ops.tri(r, b, 3, False), "upper": False})
+        add("Kron-low [2, 3] b=%s" % b, lambda r, b=b: {"k": "Kron", "fs": [ops.spd(r, b, 2, shift=0.25), ops.spd(r, b, 3, shift=0.25)]})
+        for dkk in ("const", "diag", "kron-const", "kron-diag"):
+            def mk(r, b=b, dkk=dkk):
+                fsz = [2, 2]
+                fs = [ops.spd(r, b, m, shift=(0.25 if dkk in ("const", "kron-diag") else 1.0)) for m in fsz]
+                if dkk == "const":
+                    dk = {"k": "const", "c": ops.pos(r, *b, 1)}
+                elif dkk == "diag":
+                    dk = {"k": "diag", "d": ops.pos(r, *b, 4)}
+                elif dkk == "kron-const":
+                    dk = {"k": "kron", "consts": True, "ds": [ops.pos(r, *b, 1).expand(*b, m).clone() for m in fsz]}
+                else:
+                    dk = {"k": "kron", "consts": False, "ds": [ops.pos(r, *b, m) for m in fsz]}
+                return {"k": "KPAD", "fs": fs, "dk": dk}
+            add("KPAD [2, 2] %s b=%s" % (dkk, b), mk)
+        add("LRRAD n=3 r=1 b=%s cd" % b, lambda r, b=b: {"k": "LRRAD", "U": ops.rnd(r, *b, 3, 1),
+                                                          "d": ops.pos(r, *b, 1).expand(*b, 3).clone(), "cdiag": True})
+        add("SumKron b=%s" % b, lambda r, b=b: {"k": "SumKron", "a": [ops.spd(r, b, 2), ops.spd(r, b, 2)],
+                                                "b": [ops.spd(r, b, 2), ops.spd(r, b, 2)]})
+        # SumBatchLinearOperator: sum over a batch dimension (the last, the middle, the first one)
+        for bd in (-3, -4, -5):
+            add("SumBatch n=3 b=%s s=4 bd=%d" % (b, bd), lambda r, b=b, bd=bd: {"k": "SumBatch", "A": ops.spd(r, b + [4], 3, shift=0.25), "bd": bd})
+        # CatLinearOperator along a batch dimension (parts of different sizes)
+        add("Cat n=3 b=[2, 1+2] dim=-3", lambda r: {"k": "Cat", "parts": [ops.spd(r, [2, 1], 3), ops.spd(r, [2, 2], 3)], "dim": -3})
+        add("Cat n=3 b=[1+1, 3] dim=-4", lambda r: {"k": "Cat", "parts": [ops.spd(r, [1, 3], 3), ops.spd(r, [1, 3], 3)], "dim": -4})
+        # expanded batches (LinearOperator.expand of an operator with a smaller / partly singleton batch shape)
+        for xb in ([2, 1], [3], [1, 3]):
+            add("Dense n=3 xb=%s->%s" % (xb, b), lambda r, b=b, xb=xb: {"k": "Dense", "A": ops.expand_full(ops.spd(r, xb, 3), b, 2), "xb": xb})
+            add("Diag n=3 xb=%s->%s" % (xb, b), lambda r, b=b, xb=xb: {"k": "Diag", "d": ops.expand_full(ops.pos(r, *xb, 3), b, 1), "xb": xb})
+        add("CDiag n=3 xb=[1, 3]->%s" % b, lambda r, b=b: {"k": "CDiag", "c": ops.expand_full(ops.pos(r, 1, 3, 1), b, 1), "n": 3, "xb": [1, 3]})
+        add("CDiag n=3 xb=[2, 1]->%s" % b, lambda r, b=b: {"k": "CDiag", "c": ops.expand_full(ops.pos(r, 2, 1, 1), b, 1), "n": 3, "xb": [2, 1]})
+        add("Ident n=3 xb=[3]->%s" % b, lambda r, b=b: {"k": "Ident", "n": 3, "batch": b, "xb": [3]})
+        add("Ident n=3 xb=[2, 1]->%s" % b, lambda r, b=b: {"k": "Ident", "n": 3, "batch": b, "xb": [2, 1]})
+        add("Chol n=3 xb=[2, 1]->%s" % b, lambda r, b=b: {"k": "Chol", "T": ops.expand_full(ops.tri(r, [2, 1], 3, False), b, 2), "upper": False, "xb": [2, 1]})
+        # Kronecker factors whose batch shapes differ and broadcast
+        for fxb in ([[2, 1], [3]], [[1, 3], [2, 3]], [[3], [2, 1]]):
+            add("Kron [2, 2] fxb=%s->%s" % (fxb, b), lambda r, b=b, fxb=fxb: {
+                "k": "Kron", "fs": [ops.expand_full(ops.spd(r, xb, 2, shift=0.5), b, 2) for xb in fxb], "fxb": fxb})
+    # Block wrappers: outer batch of two different sizes
+    for il in (False, True):
+        for kind in ("Dense", "Diag", "Chol", "Kron", "LRRAD", "Ident"):
+            if kind == "Diag" and not il:
+                continue            # BlockDiagLinearOperator(DiagLinearOperator) is a DiagLinearOperator (C02)
+            add("Block il=%d %s ob=[2, 3] k=2 m=3" % (il, kind),
+                lambda r, il=il, kind=kind: {"k": "Block", "il": il, "base": base_of(kind, r, [2, 3, 2], 3)})
+        for kind in ("Dense", "Chol"):
+            add("Block il=%d %s ob=[3, 1] k=3 m=2" % (il, kind),
+                lambda r, il=il, kind=kind: {"k": "Block", "il": il, "base": base_of(kind, r, [3, 1, 3], 2)})
+        for bd in (-4, -5):         # block dimension not the last batch dimension: the constructor permutes the batch
+            add("Block il=%d Dense ob=[2, 3] k=4 m=2 bd=%d" % (il, bd),
+                lambda r, il=il, bd=bd: {"k": "Block", "il": il, "bd": bd, "base": base_of("Dense", r, [2, 3, 4], 2)})
+    # BatchRepeat: base batch x repeat patterns mixing repeated and non-repeated dimensions (also left-padded)
+    pats = (([2, 1], [1, 3]), ([2, 2], [2, 3]), ([3, 2], [2, 1]), ([2], [3, 1]), ([3], [2, 2]))
+    for kind in ("Dense", "Diag", "CDiag", "Chol", "Kron", "Ident", "LRRAD"):
+        for (bb, rep) in pats:
+            add("Repeat %s bb=%s rep=%s" % (kind, bb, rep),
+                lambda r, kind=kind, bb=bb, rep=rep: {"k": "Repeat", "base": base_of(kind, r, bb, 3), "rep": rep})
+    for kind in ("Dense", "Diag"):
+        add("Repeat %s bb=[2, 3, 1] rep=[1, 2, 4]" % kind,
+            lambda r, kind=kind: {"k": "Repeat", "base": base_of(kind, r, [2, 3, 1], 2), "rep": [1, 2, 4]})
+    add("Repeat(Block(Dense)) ob=[2, 1] rep=[1, 3]", lambda r: {"k": "Repeat", "rep": [1, 3], "base":
+        {"k": "Block", "il": False, "base": base_of("Dense", r, [2, 1, 2], 2)}})
+    add("Repeat(BlockI(Chol)) ob=[2, 2] rep=[2, 3]", lambda r: {"k": "Repeat", "rep": [2, 3], "base":
+        {"k": "Block", "il": True, "base": base_of("Chol", r, [2, 2, 2], 2)}})
+    add("Block(Repeat(Dense)) bb=[2, 1, 2] rep=[1, 3, 1]", lambda r: {"k": "Block", "il": False, "base":
+        {"k": "Repeat", "rep": [1, 3, 1], "base": base_of("Dense", r, [2, 1, 2], 2)}})
+    add("BlockI(Repeat(Diag)) bb=[2, 1] rep=[3, 2]", lambda r: {"k": "Block", "il": True, "base":
+        {"k": "Repeat", "rep": [3, 2], "base": base_of("Diag", r, [2, 1], 3)}})
+    return V
+
 
 def variants(quick):
     """deterministic list of (name, builder(rng) -> spec); the seed only picks values"""
@@ -469,20 +601,6 @@ def variants(quick):
         add("SumKron b=%s" % b, lambda r, b=b: {"k": "SumKron", "a": [ops.spd(r, b, 2), ops.spd(r, b, 3)],
                                                 "b": [ops.spd(r, b, 2), ops.spd(r, b, 3)]})
     # wrappers
-    def base_of(kind, r, b, m):
-        if kind == "Dense":
-            return {"k": "Dense", "A": ops.spd(r, b, m, shift=0.5)}
-        if kind == "Diag":
-            return {"k": "Diag", "d": ops.pos(r, *b, m)}
-        if kind == "Chol":
-            return {"k": "Chol", "T": ops.tri(r, b, m, False), "upper": False}
-        if kind == "Kron":
-            return {"k": "Kron", "fs": [ops.spd(r, b, 2), ops.spd(r, b, 2)]}
-        if kind == "Ident":
-            return {"k": "Ident", "n": m, "batch": b}
-        if kind == "LRRAD":
-            return {"k": "LRRAD", "U": ops.rnd(r, *b, m, 1), "d": ops.pos(r, *b, m), "cdiag": False}
-        raise ValueError(kind)
     for il in (False, True):
         for kind in ("Dense", "Diag", "Chol", "Kron", "LRRAD"):
             for (ob, kk, m) in (([], 2, 3), ([2], 3, 2), ([], 1, 3)):
@@ -523,7 +641,7 @@ def variants(quick):
                             return {"k": "OB", "e": e}
                     return {"k": "Dense", "A": ops.spd(r, b, m)}
                 add("OB %s b=%s m=%d" % (cls, b, m), mk)
-    return V
+    return V + variants_mb(quick)
 
 
 def profiles(n, quick, leaf):
@@ -552,7 +670,7 @@ def gen_cases(ctx):
     quick = ctx.quick
     defaults = lib_defaults()
     cases = []
-    flag_combos = [(rhs, ld, red) for rhs in ("none", "mat", "vec") for ld in (True, False) for red in (True, False)]
+    flag_combos = [(rhs, ld, red) for rhs in ("none", "mat", "vec", "bmat") for ld in (True, False) for red in (True, False)]
     vi = 0
     for name, mk in variants(quick):
         spec = mk(rng)
@@ -569,12 +687,21 @@ def gen_cases(ctx):
                     continue        # a 1-D rhs is only documented for non-batch operators
                 if rhs == "none" and not red:
                     continue        # reduce flag is irrelevant without a rhs (one representative)
+                if rhs == "bmat" and (max(batch + [1]) == 1 or leaf["k"] == "Ident"):
+                    continue        # nothing to broadcast; IdentityLinearOperator's result follows the rhs batch shape
+                                    # (outside the documented `*batch N M`, not demanded by C05)
                 cells.append((pi, pname, ov, fi, rhs, ld, red))
         if quick:
             # two core cells (default / mcs0 with a matrix rhs and logdet) plus a rotating slice of the full
             # (profile x flags) table: every cell of the table is visited several times across the variants
             core = [c for c in cells if c[0] <= 1 and c[4] == "mat" and c[5] and c[6] == (vi % 2 == 0)]
             rot = [cells[(vi * 7 + j * 37) % len(cells)] for j in range(3)]
+            if name.startswith(MB_PREFIX):
+                # >= 2 batch dimensions: both routes x reduce on / off with a full rhs, a broadcast rhs on both routes
+                core = [c for c in cells if c[0] <= 1 and c[4] == "mat" and c[5]]
+                core += [c for c in cells if c[0] <= 1 and c[4] == "bmat" and c[5] == ((vi + c[0]) % 2 == 0)
+                         and c[6] == ((vi // 2 + c[0]) % 2 == 0)]
+                rot = rot[:2]
             if leafd == "OB:AddedDiag":
                 rot += [c for c in cells if c[1].startswith("mcs0-precond") and c[4] != "vec" and (c[3] + vi) % 3 == 0]
             chosen = []
@@ -591,6 +718,16 @@ def gen_cases(ctx):
                 R = None
             elif rhs == "vec":
                 R = ops.rnd(rng, n)
+            elif rhs == "bmat":
+                # the operator's batch shape with one non-singleton dimension (rotating) set to 1 - and, every other
+                # time when there are several, all of them
+                big = [i for i, x in enumerate(batch) if x > 1]
+                rb = list(batch)
+                if len(big) > 1 and (vi + fi + pi) % 3 == 0:
+                    rb = [1] * len(batch)
+                else:
+                    rb[big[(vi + fi + pi) % len(big)]] = 1
+                R = ops.rnd(rng, *rb, n, t)
             else:
                 R = ops.rnd(rng, *batch, n, t)
             cases.append({"name": name, "prof": pname, "spec": spec, "st": st, "rhs": rhs, "R": R,
@@ -641,7 +778,7 @@ def case_lit(case, obs):
     tol_iq, tol_ld = case["tol"]
     api = {"iql": 0, "logdet": 1, "torch.logdet": 1, "inv_quad": 2}[case["api"]]
     return "(MkCase %s %s %s %s %s %s %s %s %s %s)" % (
-        ops.nat(api), settings_lit(case["st"]), ops.bop_lit(spec, pc), ops.rhs_lit(case["R"], case["rhs"] == "vec", batch),
+        ops.nat(api), settings_lit(case["st"]), ops.bop_lit(spec, pc), ops.rhs_lit(full_rhs(case, batch), case["rhs"] == "vec", batch),
         "true" if case["logdet"] else "false", "true" if case["reduce"] else "false",
         ops.probes_lit(obs.get("probes") if stochastic else None), ops.fl(tol_iq), ops.fl(tol_ld), o)
 
@@ -673,12 +810,14 @@ def model_comparable(case, obs):
         return None          # LinearOperator.inv_quad through the wrappers' _solve: direct predicate only
     st = case["st"]
     n = ops.spec_size(spec_leaf(case["spec"]))
+    if case["rhs"] == "bmat" and is_guard(obs):
+        return None          # a refused broadcast rhs: nothing to compare (the model expands the rhs, by meaning)
     if "raise" in obs:
         return (1e-9, 1e-9)
     tol_iq, tol_ld = 1e-9, 1e-9
     leaf = spec_leaf(case["spec"])
     cg_solve = (not chol_route(st, n)) and st["solves"] and (
-        leaf["k"] in ("Dense", "OB") or (leaf["k"] == "KPAD" and leaf["dk"]["k"] == "diag"))
+        leaf["k"] in ops.GENERIC or (leaf["k"] == "KPAD" and leaf["dk"]["k"] == "diag"))
     if cg_solve and case["rhs"] != "none":
         tol_iq = 1e-7
     if leaf["k"] == "Kron" and (not chol_route(st, n)) and st["solves"] and case["rhs"] != "none":
